@@ -18,7 +18,9 @@ G = D.unit_grid(5)
 LABS = ("a", "ab", "b", "A", "", "a 1")
 QUERIES = ("a", "b", "ab", "A", "", "a|b", "^a$", ".", "b+", "B",
            # pairs of regular expressions that differ only in letter case and mean different things
-           r"\S", r"\s", r"\W", r"\w", r"^\D+$", r"^\d+$", r"\Bb", r"\bb")
+           r"\S", r"\s", r"\W", r"\w", r"^\D+$", r"^\d+$", r"\Bb", r"\bb",
+           # queries with white space of their own: the QUERY is taken as it is (labels are stripped when they enter a tier, queries are not labels)
+           " a", "a ", " 1", " ", "\ta")
 
 
 # letters whose case mapping is irregular (final sigma, dotless / dotted i, long s, sharp s): "case-insensitive regular expression" is the regex
